@@ -13,7 +13,7 @@ import (
 
 // C11 — reload never interrupts service on retained listeners.
 func init() {
-	Register(&Scenario{Name: "c11", Prop: "C11", MaxSteps: 1000000, Run: runC11, PanicIsViolation: true})
+	Register(&Scenario{Name: "c11", Prop: "C11", MaxSteps: 1000000, Run: runC11, PanicIsViolation: true, LivelockIsViolation: true})
 }
 
 func runC11(rc *RunCtx) {
